@@ -31,8 +31,11 @@ TemplCases == [kind : {"template"}, nkeys : 0..3, duplicate : BOOLEAN, commented
 (* not exist yet and may remove MOTION->PRINT; results are compared as trees (sibling order is      *)
 (* immaterial)                                                                                       *)
 Cp2kKeys == {"STEPS", "TIMESTEP", "TEMPERATURE"}
+(* kinds: how many sibling sections with the same title the template has under FORCE_EVAL->SUBSYS (&KIND H, &KIND O, &KIND C:  *)
+(* told apart by their section parameter); edit_kind: the edit also sets a keyword of the last of them, addressed by title and   *)
+(* parameter - every other sibling must stay as it was                                                                          *)
 Cp2kCases == [kind : {"cp2k"}, present : SUBSET Cp2kKeys, update : SUBSET Cp2kKeys, has_print : BOOLEAN,
-              add_section : BOOLEAN, remove_print : BOOLEAN]
+              add_section : BOOLEAN, remove_print : BOOLEAN, kinds : {0, 2, 3}, edit_kind : BOOLEAN]
 
 (* A LAMMPS template declares variables `variable name index infretis_<x>`; write_for_run replaces the   *)
 (* requested tokens.  defined: the variables the template declares; requested: the settings handed over; *)
@@ -42,7 +45,7 @@ LmpVars == 1..3
 LammpsCases == [kind : {"lammps"}, defined : SUBSET LmpVars, requested : SUBSET LmpVars, again : SUBSET LmpVars,
                 again_in_comment : BOOLEAN, lookalike : BOOLEAN]
 
-WellFormed(x) == IF x.kind = "cp2k" THEN TRUE ELSE IF x.kind = "lammps" THEN x.again \subseteq x.defined ELSE IF x.kind = "traj"
+WellFormed(x) == IF x.kind = "cp2k" THEN (x.edit_kind => x.kinds >= 2) ELSE IF x.kind = "lammps" THEN x.again \subseteq x.defined ELSE IF x.kind = "traj"
                  THEN /\ x.k < x.nframes
                       /\ (x.fmt = "lammpstrj" => x.natoms >= 2)            \* its reader relies on 2-D tables
                       /\ (x.op = "append" => x.nframes >= 2)
